@@ -409,7 +409,7 @@ PROPS["C04"] = {
                  "WhatIs.C04.jwt_order_independent", "WhatIs.C04.jwt_no_map_range"],
     "facts": {"cli.processZoneIsUTC": True, "keyusage.isMap": False, "jwt.rangesOverMap": False,
               "scan.mapRanges": ["internal/file pgpKey: e.Identities [function sorts]"],
-              "scan.formatsNonUTC": ["internal/asn1struct Raw.Value: Format t"],
+              "scan.formatsNonUTC": [],
               "scan.envReads": ["internal/openpgp/packet Config.Now: time.Now"]},
     "nontrivial": nt_c04,
     "rule": "inputs whose displayed collections have >= 2 elements (certificates with several key usages/SANs from the fixtures, a "
